@@ -10,7 +10,12 @@ EDITORS = ["update_base_search", "clear_search", "update_unencoded_base_hash", "
            "clear_password", "add_authority_slashes_if_needed", "set_scheme", "set_scheme_from_view_with_colon",
            "append_base_pathname", "append_base_username", "append_base_password",
            # the public component setters, against Model/AggSetters.lean (precondition + encode + editor + limit check)
-           "set_username", "set_password", "set_search", "set_hash"]
+           "set_username", "set_password", "set_search", "set_hash", "set_port", "set_protocol"]
+
+# the raw scheme editors leave `type` stale (parse_scheme_with_colon updates it itself); the setter-level operations that read
+# `type` (default port, special-ness of the current scheme) are therefore not compared after one of them
+RAW_SCHEME = ("set_scheme", "set_scheme_from_view_with_colon")
+READS_TYPE = ("set_port",)
 
 
 def gen_arg(rng, ed):
@@ -32,6 +37,12 @@ def gen_arg(rng, ed):
         return rng.choice([b"q=1", b"?q", b"a b", b"a\tb", "é".encode(), b"'", b"??"])
     if ed == "set_hash":
         return rng.choice([b"f", b"#f", b"a b", b"a\tb", "é".encode(), b"`", b"##"])
+    if ed == "set_port":
+        return rng.choice([b"", b"0", b"80", b"443", b"21", b"8080", b"65535", b"65536", b"99999999999", b"8a", b"a8", b" 81", b"8\t1",
+                           b"0080", b"00000000000000000443", b"-1", b"+1", b"1:2", b"1/", str(rng.randrange(70000)).encode()])
+    if ed == "set_protocol":
+        return rng.choice([b"http", b"https:", b"HTTPS", b"ws", b"wss://x", b"ftp", b"file", b"foo", b"web+x:", b"a.b-c", b"1a", b"",
+                           b"a b", b"h\ttt\np", b":", b"x:y:z", b"+x", b"\xc3\xa9", b"FiLe:"])
     if ed == "set_scheme_from_view_with_colon":
         return rng.choice([b"foo:", b"https:", b"ws:", b"a:"])
     if ed == "append_base_pathname":
@@ -113,6 +124,9 @@ def explore(run, binp, cases):
             ed, arg = ops[si]
             f = raw.split(",")
             # call-site preconditions of the parser-only editors: the host is still empty when credentials are appended
+            if ed in READS_TYPE and any(o[0] in RAW_SCHEME for o in ops[:si]):
+                stats["left_preconditions"] += 1
+                break
             if ed == "append_base_username" and f[3] != f[4]:
                 stats["left_preconditions"] += 1
                 break
